@@ -245,6 +245,7 @@ pub fn main(opts: &Opts) -> ! {
     extra.insert("distinct_interleavings".into(), json!(res.distinct_interleavings));
     extra.insert("interleaving_measure".into(), json!("distinct hashes of the order of transport events: (role, op) of every send/recv/try_recv/join on the results, terminate and report channels"));
     extra.insert("determinism_rechecks".into(), json!(res.determinism_rechecks));
+    extra.insert("stub_conformance".into(), stub_conformance());
     extra.insert("components".into(), json!({
         "real": ["BerTestBuilder::build", "BerTest::{new,run,do_run,make_worker}", "Worker::{work,simulate}", "Encoder", "Puncturer", "Interleaver", "modulators", "AwgnChannel", "demodulators", "Statistics::from_current", "report! macro"],
         "stub": ["std::thread::{spawn,JoinHandle}", "std::sync::mpsc", "std::time::Instant", "rand::rng", "num_cpus::get", "decoder (scripted DecoderFactory)"],
